@@ -2054,3 +2054,147 @@ func c01R27(ic *IC, r *Report) {
 	r.Check(ok, "R01.27", "cfg/empty-loop-body/last-placeholder-has-a-successor", ic.pos(at), "an otherwise empty loop body leads to the block node",
 		"wireChild skips identExpr children when it chains the last executable child of a block to the block, and the block case of cfg does not give the last loop-variable placeholder a successor: with an empty body (for i := 0; i < 3; i++ {}, for range xs {}) the placeholder's closure returns nil, the execution loop stops and the rest of the enclosing function is silently skipped")
 }
+
+func init() {
+	ruleText["R01.28"] = "in the switch cases of cfg (type switches apart) the header of the statement - init statement and tag, every child before the block of clauses - is chained as a whole: no statement wires n.child[0] alone to the clauses"
+	ruleText["R01.29"] = "every node kind holding a statement list (blockStmt, caseBody, commClause, commClauseDefault) pre-declares, in the pre-order pass, the labels its statements define: its pre-order case reaches the creation of label symbols"
+}
+
+// c01R28: found D84 (switch q := p; q.X { case 3: } took default: the tag was never executed).
+// c01R29: found D86 (a label in a case body was undefined).
+func c01R28and29(ic *IC, r *Report) {
+	info := ic.Info
+	fi := ic.fn(r, "Interpreter.cfg")
+	if fi == nil {
+		return
+	}
+	tnextFld := ic.field("node", "tnext")
+	childFld := ic.field("node", "child")
+	typeSwitchK, _ := ic.Pk.Types.Scope().Lookup("typeSwitch").(*types.Const)
+	nSw := 0
+	ast.Inspect(fi.Decl.Body, func(m ast.Node) bool {
+		cc, ok := m.(*ast.CaseClause)
+		if !ok {
+			return true
+		}
+		kind := ""
+		for _, l := range cc.List {
+			if id := identOf(l); id != nil {
+				if c, ok := info.Uses[id].(*types.Const); ok && (c.Name() == "switchStmt" || c.Name() == "switchIfStmt") {
+					kind = c.Name()
+				}
+			}
+		}
+		if kind == "" || len(callsIn(info, cc, true, "interp.setFNext")) == 0 {
+			return true
+		}
+		nSw++
+		var bad []string
+		ast.Inspect(cc, func(k ast.Node) bool {
+			as, ok := k.(*ast.AssignStmt)
+			if !ok || len(as.Lhs) != 1 || selField(info, as.Lhs[0]) != tnextFld {
+				return true
+			}
+			// n.child[0].tnext = ...
+			ix, ok := unparen(as.Lhs[0].(*ast.SelectorExpr).X).(*ast.IndexExpr)
+			if !ok || selField(info, ix.X) != childFld {
+				return true
+			}
+			if id := identOf(ix.X.(*ast.SelectorExpr).X); id == nil || id.Name != "n" {
+				return true
+			}
+			if tv, ok := info.Types[ix.Index]; !ok || tv.Value == nil || tv.Value.ExactString() != "0" {
+				return true
+			}
+			// accepted under a test that the statement is a type switch
+			underTS := false
+			for _, p := range pathGuards(cc, as) {
+				if !p.want {
+					continue
+				}
+				ast.Inspect(p.cond, func(q ast.Node) bool {
+					if id, ok := q.(*ast.Ident); ok && typeSwitchK != nil && info.ObjectOf(id) == typeSwitchK {
+						underTS = true
+					}
+					return true
+				})
+			}
+			if !underTS {
+				bad = append(bad, ic.pos(as.Pos()))
+			}
+			return true
+		})
+		r.Check(len(bad) == 0, "R01.28", "cfg/case:"+kind+"/header-chained-as-a-whole", ic.pos(cc.Pos()), "init statement and tag are chained before the clauses",
+			"the "+kind+" case of cfg wires n.child[0] alone to what follows ("+strings.Join(bad, ", ")+"): with an init statement the tag expression (child 1) is never executed, so switch q := p; q.X { case 3: } compares the zero value and takes default")
+		return true
+	})
+	if nSw < 2 {
+		r.Errorf("R01.28: %d post-order switch cases found", nSw)
+	}
+	// R01.29
+	labelSym, _ := ic.Pk.Types.Scope().Lookup("labelSym").(*types.Const)
+	createsLabels := func(body ast.Node, depth int) bool { return false }
+	createsLabels = func(body ast.Node, depth int) bool {
+		found := false
+		ast.Inspect(body, func(k ast.Node) bool {
+			switch x := k.(type) {
+			case *ast.CompositeLit:
+				for _, e := range x.Elts {
+					if kv, ok := e.(*ast.KeyValueExpr); ok {
+						if id := identOf(kv.Value); id != nil && labelSym != nil && info.ObjectOf(id) == labelSym {
+							// only a creation keyed by the statement's own children (a loop over children)
+							found = true
+						}
+					}
+				}
+			case *ast.CallExpr:
+				if depth > 0 {
+					if f, ok := calleeOf(info, x).(*types.Func); ok && f.Pkg() == ic.Pk.Types {
+						if hd := ic.G.Funcs[f]; hd != nil && hd.Decl.Body != nil && hd.Decl.Recv == nil && createsLabels(hd.Decl.Body, depth-1) {
+							found = true
+						}
+					}
+				}
+			}
+			return !found
+		})
+		return found
+	}
+	for _, kind := range []string{"blockStmt", "caseBody", "commClause", "commClauseDefault"} {
+		kobj, _ := ic.Pk.Types.Scope().Lookup(kind).(*types.Const)
+		if kobj == nil {
+			r.Errorf("R01.29: node kind %s not found", kind)
+			continue
+		}
+		ok := false
+		var at token.Pos = fi.Decl.Pos()
+		ast.Inspect(fi.Decl.Body, func(m ast.Node) bool {
+			cc, isCC := m.(*ast.CaseClause)
+			if !isCC {
+				return true
+			}
+			for _, l := range cc.List {
+				if id := identOf(l); id != nil && info.ObjectOf(id) == kobj {
+					// the pre-order case: it does not wire successors
+					if len(callsIn(info, cc, true, "interp.wireChild", "interp.setFNext")) > 0 {
+						continue
+					}
+					labelled := false
+					for _, s := range cc.Body {
+						// only loops over children creating label symbols, or helper calls, count
+						if createsLabels(s, 1) {
+							labelled = true
+						}
+					}
+					if labelled {
+						ok = true
+						at = cc.Pos()
+					}
+				}
+			}
+			return true
+		})
+		r.Check(ok, "R01.29", "cfg/pre-order:"+kind+"/labels-declared", ic.pos(at), "the labels of the statement list are declared before its statements are compiled",
+			"no pre-order case of cfg for node kind "+kind+" declares the labels its statements define: a goto, break or continue naming a label of that list fails with 'undefined' although the program is valid")
+	}
+}
